@@ -3,46 +3,62 @@
 sources (never to /repo), runs the property check against the copy and compares the verdict:
   kind=break  -> exit 1 and the expected rule id reported
   kind=benign -> exit 0 (behaviour-preserving twin: the rule must stay silent)
-usage: selftest/run.py [pid ...]"""
+usage: selftest/run.py [pid|mutant-name ...]"""
 import json, os, shutil, subprocess, sys, tempfile
+from concurrent.futures import ThreadPoolExecutor
 HERE = os.path.dirname(os.path.abspath(__file__))
 VERIF = os.path.dirname(HERE)
-muts = json.load(open(os.path.join(HERE, "mutants.json")))
-want = set(sys.argv[1:])
-bad = 0
-for m in muts:
-    if want and m["pid"] not in want and m["name"] not in want:
-        continue
+
+
+def run_one(m, repo="/repo"):
     d = tempfile.mkdtemp(prefix="vsa-mut-")
     try:
         for sub in ("tools", "csg", "xtp"):
-            shutil.copytree(os.path.join("/repo", sub), os.path.join(d, sub), symlinks=True)
+            shutil.copytree(os.path.join(repo, sub), os.path.join(d, sub), symlinks=True)
         if m.get("patch"):
             pr = subprocess.run(["patch", "-p1", "-s", "-d", d, "-i", os.path.join(VERIF, m["patch"])], capture_output=True, text=True)
             if pr.returncode != 0:
-                print("MUTANT-STALE %s: patch does not apply: %s" % (m["name"], pr.stdout[-300:]))
-                bad += 1
-                continue
+                return {"name": m["name"], "ok": False, "stale": True, "detail": "patch does not apply: " + pr.stdout[-200:]}
         for ed in m.get("edits", []):
             p = os.path.join(d, ed["file"])
             s = open(p).read()
             if s.count(ed["old"]) != 1:
-                print("MUTANT-STALE %s: pattern occurs %d times in %s" % (m["name"], s.count(ed["old"]), ed["file"]))
-                bad += 1
-                break
+                return {"name": m["name"], "ok": False, "stale": True, "detail": "pattern occurs %d times in %s" % (s.count(ed["old"]), ed["file"])}
             open(p, "w").write(s.replace(ed["old"], ed["new"]))
+        env = dict(os.environ, VSA_REPO=d, VSA_EVIDENCE=os.path.join(d, "evidence"))
+        env.pop("VERIF_TIER", None)
+        r = subprocess.run([os.path.join(VERIF, "check"), m["pid"], "--tier", "quick"], env=env, capture_output=True, text=True, timeout=900)
+        out = r.stdout + r.stderr
+        if m["kind"] == "break":
+            ok = r.returncode == 1 and ("rule %s " % m["expect"]) in out
         else:
-            env = dict(os.environ, VSA_REPO=d, VSA_EVIDENCE=os.path.join(d, "evidence"))
-            r = subprocess.run([os.path.join(VERIF, "check"), m["pid"], "--tier", "quick"], env=env, capture_output=True, text=True, timeout=900)
-            out = r.stdout + r.stderr
-            if m["kind"] == "break":
-                ok = r.returncode == 1 and ("rule %s " % m["expect"]) in out
-            else:
-                ok = r.returncode == 0
-            print("%s %-8s %-40s rc=%d %s" % ("ok  " if ok else "FAIL", m["kind"], m["name"], r.returncode, m.get("expect", "")))
-            if not ok:
-                bad += 1
-                print("\n".join(out.splitlines()[-12:]))
+            ok = r.returncode == 0
+        return {"name": m["name"], "kind": m["kind"], "expect": m.get("expect", ""), "rc": r.returncode, "ok": ok, "stale": False, "tail": "\n".join(out.splitlines()[-8:])}
+    except subprocess.TimeoutExpired:
+        return {"name": m["name"], "ok": False, "stale": False, "detail": "timeout"}
     finally:
         shutil.rmtree(d, ignore_errors=True)
-sys.exit(1 if bad else 0)
+
+
+def select(want):
+    muts = json.load(open(os.path.join(HERE, "mutants.json")))
+    return [m for m in muts if not want or m["pid"] in want or m["name"] in want]
+
+
+def run_many(muts, jobs=4):
+    with ThreadPoolExecutor(max_workers=jobs) as ex:
+        return list(ex.map(run_one, muts))
+
+
+if __name__ == "__main__":
+    bad = 0
+    for r in run_many(select(set(sys.argv[1:])), jobs=int(os.environ.get("SELFTEST_JOBS", "4"))):
+        if r.get("stale"):
+            print("MUTANT-STALE %s: %s" % (r["name"], r["detail"]))
+            bad += 1
+            continue
+        print("%s %-8s %-40s rc=%s %s" % ("ok  " if r["ok"] else "FAIL", r.get("kind", "?"), r["name"], r.get("rc", "?"), r.get("expect", "")))
+        if not r["ok"]:
+            bad += 1
+            print(r.get("tail") or r.get("detail", ""))
+    sys.exit(1 if bad else 0)
